@@ -99,9 +99,10 @@ HalfFor(n, s, xs) ==
   ELSE LET k == CHOOSE i \in diff : \A j \in diff : i <= j IN
        [has |-> TRUE, k |-> k, t |-> RDiv(RAdd(RInt(s[k]), xs[k]), RInt(2)),
         side |-> IF RLt(xs[k], RInt(s[k])) THEN 1 ELSE -1]          \* side 1: feasible iff x_k >= t
-StartRecs(n, xs) == LET S == Starts(n)
-                        sq == SetToSeq(S)
+StartRecsFrom(S, n, xs) ==
+                    LET sq == SetToSeq(S)
                     IN [i \in 1..Cardinality(S) |-> [x |-> sq[i], box |-> BoxFor(n, sq[i], xs), half |-> HalfFor(n, sq[i], xs)]]
+StartRecs(n, xs) == StartRecsFrom(Starts(n), n, xs)
 
 QuadCase(n, L, d, c) ==
   LET A == AOf(n, L, d)
@@ -150,6 +151,25 @@ QuarticCase(n, m) == [kind |-> "quartic", n |-> n, m |-> m, k |-> [i \in 1..n |-
                       lip2 |-> RZero, sc |-> FALSE, starts |-> StartRecs(n, m)]
 QuarticCases == UNION {{QuarticCase(n, m) : m \in [1..n -> Ms]} : n \in 1..IMin(MaxDim, 2)}
 
+(* objectives with a BOUNDED DOMAIN: outside of it value and every partial derivative are NaN.  A routine   *)
+(* whose iterate leaves the domain must fail (error / panic) or come back; a point outside the domain never   *)
+(* meets a stopping condition.                                                                                 *)
+(* bowl   f(x) = -sqrt(R^2 - |x - c|^2) on the open ball |x - c| < R: gradient (x-c)/sqrt(R^2-|x-c|^2), zero   *)
+(*        only at c; Hessian >= I/R, so |x - c| <= R |grad f(x)|; curvature at the centre 1/R (lip2, used for  *)
+(*        the step sizes of gradient descent: steps R/2, R, 3R/2 leave the ball from the starts near the rim). *)
+(* xlogx  f(x) = x log x - x on x > 0: f' = log x, minimiser 1.                                                *)
+BowlStarts(n, c) == IF n = 1 THEN {<<c[1] + 3>>, <<c[1] - 4>>, <<c[1]>>}
+                    ELSE {<<c[1] + 3, c[2] + 2>>, <<c[1] + 4, c[2] + 2>>, <<c[1] - 4, c[2] - 2>>, <<c[1], c[2]>>, <<c[1], c[2] - 4>>}
+BowlCase(n, c) == LET cs == [i \in 1..n |-> RInt(c[i])] IN
+  [kind |-> "bowl", n |-> n, m |-> cs, rad |-> 5, xstar |-> cs, invb2 |-> RInt(25), lip2 |-> Rat(1, 25), sc |-> TRUE,
+   starts |-> StartRecsFrom(BowlStarts(n, c), n, cs)]
+BowlCases == {BowlCase(1, <<0>>), BowlCase(1, <<2>>), BowlCase(2, <<0, 0>>), BowlCase(2, <<1, -2>>)}
+BowlCertificate(b) == \A i \in 1..Len(b.starts) :                        \* every start lies strictly inside the ball
+                        Sum(b.n, LAMBDA k : (b.starts[i].x[k] - b.m[k].n) * (b.starts[i].x[k] - b.m[k].n)) < b.rad * b.rad
+XlogxCase == [kind |-> "xlogx", n |-> 1, xstar |-> <<ROne>>, invb2 |-> RZero, lip2 |-> Rat(1, 9), sc |-> FALSE,
+              starts |-> StartRecsFrom({<<3>>, <<2>>, <<5>>}, 1, <<ROne>>)]
+XlogxCertificate(c) == \A i \in 1..Len(c.starts) : c.starts[i].x[1] > 0
+
 DataSets == {<< <<1>> >>, << <<1>>, <<2>> >>, << <<1, 0>>, <<1, 1>> >>, << <<1, -1>>, <<2, 1>>, <<0, 1>> >>}
 Lambdas == {Rat(1, 10), ROne}
 Shifts2 == {<<0, 0>>, <<1, -2>>}
@@ -192,30 +212,61 @@ Channels == {[name |-> "bsc", W |-> Bsc(e)] : e \in {Rat(1, 10), Rat(1, 4), Rat(
 P0s(n) == IF n = 2 THEN {<<Rat(1, 2), Rat(1, 2)>>, <<Rat(1, 4), Rat(3, 4)>>, <<Rat(9, 10), Rat(1, 10)>>, <<RZero, ROne>>}
           ELSE {<<Rat(1, 3), Rat(1, 3), Rat(1, 3)>>, <<Rat(1, 2), Rat(1, 4), Rat(1, 4)>>, <<Rat(1, 10), Rat(1, 5), Rat(7, 10)>>,
                 <<RZero, Rat(1, 2), Rat(1, 2)>>}
+(* NON-SQUARE channels with exactly known capacity-achieving input: a symmetric base channel B whose output      *)
+(* columns are split into proportional columns (W[x][y] = ts[y] B[x][cm[y]], a sufficient statistic: the mutual  *)
+(* information is that of B for every input distribution) and / or whose input rows are duplicated (rm); the     *)
+(* split fractions differ between the columns, so no output column can be dropped without changing the result.  *)
+Ident(n) == [i \in 1..n |-> i]
+SplitDup(B, rm, cm, ts) == [x \in 1..Len(rm) |-> [y \in 1..Len(cm) |-> RMul(ts[y], B[rm[x]][cm[y]])]]
+NonSquare ==
+  {[name |-> "bsc_split_2x3", base |-> Bsc(e), rm |-> <<1, 2>>, cm |-> <<1, 2, 2>>, ts |-> <<ROne, Rat(1, 3), Rat(2, 3)>>,
+    pstar |-> <<Rat(1, 2), Rat(1, 2)>>] : e \in {Rat(1, 10), Rat(1, 4)}}
+  \cup {[name |-> "bsc_split_2x4", base |-> Bsc(Rat(1, 5)), rm |-> <<1, 2>>, cm |-> <<1, 1, 2, 2>>,
+         ts |-> <<Rat(1, 4), Rat(3, 4), Rat(1, 3), Rat(2, 3)>>, pstar |-> <<Rat(1, 2), Rat(1, 2)>>]}
+  \cup {[name |-> "cyc3_split_3x5", base |-> Cyc3(Rat(1, 2), Rat(1, 3)), rm |-> <<1, 2, 3>>, cm |-> <<1, 2, 2, 3, 3>>,
+         ts |-> <<ROne, Rat(1, 4), Rat(3, 4), Rat(1, 2), Rat(1, 2)>>, pstar |-> <<Rat(1, 3), Rat(1, 3), Rat(1, 3)>>]}
+  \cup {[name |-> "bsc_dup_3x2", base |-> Bsc(Rat(1, 10)), rm |-> <<1, 1, 2>>, cm |-> <<1, 2>>, ts |-> <<ROne, ROne>>,
+         pstar |-> <<Rat(1, 4), Rat(1, 4), Rat(1, 2)>>]}
+AllChannels == {[name |-> ch.name, W |-> ch.W, base |-> ch.W, rm |-> Ident(Len(ch.W)), cm |-> Ident(Len(ch.W[1])),
+                 pstar |-> [x \in 1..Len(ch.W) |-> Rat(1, Len(ch.W))]] : ch \in Channels}
+          \cup {[name |-> r.name, W |-> SplitDup(r.base, r.rm, r.cm, r.ts), base |-> r.base, rm |-> r.rm, cm |-> r.cm, pstar |-> r.pstar] : r \in NonSquare}
 ChanCase(ch) ==
   LET nx == Len(ch.W)
       ny == Len(ch.W[1])
-      u == [x \in 1..nx |-> Rat(1, nx)]
+      u == ch.pstar
   IN [kind |-> "channel", name |-> ch.name, nx |-> nx, ny |-> ny, W |-> ch.W, pstar |-> u,
+      base |-> ch.base, rm |-> ch.rm, cm |-> ch.cm,
       qstar |-> [y \in 1..ny |-> RSumSeq([x \in 1..nx |-> RMul(u[x], ch.W[x][y])])],
       \* admissible starts: every output symbol keeps positive probability (else the posterior q(x|y) is 0/0)
       p0s |-> SetToSeq({p \in P0s(nx) : \A y \in 1..ny : ~RIsZero(RSumSeq([x \in 1..nx |-> RMul(p[x], ch.W[x][y])]))}),
       steps |-> <<1, 10, 200>>,
       \* the relaxation option Lambda on both sides of 1 (1: plain Blahut-Arimoto, the only value with a rate bound)
       lambdas |-> <<Rat(1, 2), ROne, Rat(5, 4), Rat(3, 2)>>]
-ChanCases == {ChanCase(ch) : ch \in Channels}
+ChanCases == {ChanCase(ch) : ch \in AllChannels}
 Perms(n) == {f \in [1..n -> 1..n] : \A i, j \in 1..n : i # j => f[i] # f[j]}
 ChanCertificate(c) ==
   /\ \A x \in 1..c.nx : REq(RSumSeq(c.W[x]), ROne) /\ \A y \in 1..c.ny : ~RLt(c.W[x][y], RZero)
   /\ REq(RSumSeq(c.qstar), ROne)
-  \* a transitive family of symmetries: for every input x there is a symmetry moving input 1 to x
-  /\ \A x0 \in 1..c.nx : \E s \in Perms(c.nx), t \in Perms(c.ny) :
-       /\ s[1] = x0
-       /\ \A x \in 1..c.nx, y \in 1..c.ny : REq(c.W[s[x]][t[y]], c.W[x][y])
+  /\ LET B == c.base  nb == Len(c.base)  mb == Len(c.base[1]) IN
+     \* merging the proportional output columns and the duplicated input rows yields the base channel ...
+     /\ \A x \in 1..c.nx, k \in 1..mb :
+          REq(RSumSeq([y \in 1..c.ny |-> IF c.cm[y] = k THEN c.W[x][y] ELSE RZero]), B[c.rm[x]][k])
+     /\ \A y \in 1..c.ny, x1 \in 1..c.nx, x2 \in 1..c.nx :
+          REq(RMul(c.W[x1][y], B[c.rm[x2]][c.cm[y]]), RMul(c.W[x2][y], B[c.rm[x1]][c.cm[y]]))
+     \* ... on which the printed input distribution is uniform ...
+     /\ \A k \in 1..nb : REq(RSumSeq([x \in 1..c.nx |-> IF c.rm[x] = k THEN c.pstar[x] ELSE RZero]), Rat(1, nb))
+     \* ... and which has a transitive family of symmetries: for every input x there is a symmetry moving input 1 to x
+     /\ \A x0 \in 1..nb : \E s \in Perms(nb), t \in Perms(mb) :
+          /\ s[1] = x0
+          /\ \A x \in 1..nb, y \in 1..mb : REq(B[s[x]][t[y]], B[x][y])
 
 (* ------------------------- option combinations ------------------------- *)
 Options == [kind |-> "options",
-            combos |-> SetToSeq([epsexp : {6, 10}, maxit : {3, -1}, hookstop : {-1, 0, 1, 3}, cons : {"none", "box", "half"}])]
+            combos |-> SetToSeq([epsexp : {6, 10}, maxit : {3, -1}, hookstop : {-1, 0, 1, 3}, cons : {"none", "box", "half"}]),
+            \* the storage of the START VECTOR: result and stopping condition must not depend on it (the start points
+            \* are integer vectors, exactly representable in every element type)
+            starttypes |-> <<"float64", "real64", "float32", "real32", "int", "int64", "int32", "int16", "int8",
+                             "sparse_float64", "sparse_real64", "sparse_int", "sparse_int16">>]
 
 (* ------------------------------ enumeration ---------------------------- *)
 Init == \/ case \in {q \in QuadCases : WellConditioned(q)}
@@ -224,6 +275,8 @@ Init == \/ case \in {q \in QuadCases : WellConditioned(q)}
         \/ case \in QuarticCases
         \/ case \in LogCases
         \/ case \in RosenCases
+        \/ case \in BowlCases
+        \/ case = XlogxCase
         \/ case \in PolyCases
         \/ case \in ChanCases
         \/ case = Options
@@ -235,6 +288,8 @@ Certificates ==
     [] case.kind = "quadhard" -> HardCertificate(case)
     [] case.kind = "polyroot" -> PolyCertificate(case)
     [] case.kind = "channel" -> ChanCertificate(case)
+    [] case.kind = "bowl" -> BowlCertificate(case)
+    [] case.kind = "xlogx" -> XlogxCertificate(case)
     [] OTHER -> TRUE
 (* the printed minimiser of the separable / logistic / Rosenbrock families is the planted parameter *)
 Emit == PrintT(ToJson(case))
